@@ -438,3 +438,61 @@ class PrintPrecision(Harness):
 
 
 HARNESSES = [CmpBoundary(), TreeEval(), ConstructReject(), PrintPrecision()]
+
+
+# ---- set_expression_value: every fluent leaf receives the state's value (0 if the state does not define it) -------------------
+_urep = z3.Function("urep", z3.IntSort(), z3.StringSort())     # PDDLFunction.untyped_representation of an object (name and arguments are not written here)
+
+
+def _h_urep(interp, st, a):
+    return Val(_urep(a[0].t), "str")
+
+
+def _sev_leaves_set(interp, st, a, old_state):
+    """forall r: leaf_of(tree, r) -> stored'[r] == (urep(r) in fluents ? stored_old[fluents[urep(r)]] : 0)"""
+    from pyvc.sorts import leaf_of, I
+    tree, fl = a
+    now = _stored(interp, st)
+    before = _stored(interp, old_state)
+    ks = interp.read_field(old_state, fl, "dict_str_ref", "keys")
+    mp = interp.read_field(old_state, fl, "dict_str_ref", "map")
+    r = z3.Const("r!sev", I)
+    want = z3.If(z3.Contains(ks.t, z3.Unit(_urep(r))), z3.Select(before, z3.Select(mp.t, _urep(r))), z3.RealVal(0))
+    return z3.ForAll([r], z3.Implies(leaf_of(tree.t, r), z3.Select(now, r) == want), patterns=[z3.Select(now, r)])
+
+
+def _h_leaves_set(interp, st, a):
+    return Val(_sev_leaves_set(interp, st, a, st.ghost.get("__old__") or st), "bool")
+
+
+def _h_others_kept(interp, st, a):
+    from pyvc.sorts import leaf_of, I
+    old_state = st.ghost.get("__old__") or st
+    now, before = _stored(interp, st), _stored(interp, old_state)
+    r = z3.Const("r!fr", I)
+    return Val(z3.ForAll([r], z3.Implies(z3.Not(leaf_of(a[0].t, r)), z3.Select(now, r) == z3.Select(before, r)), patterns=[z3.Select(now, r)]), "bool")
+
+
+def _h_separate(interp, st, a):
+    """no fluent object of the state is a leaf of the tree (the state's objects are only read)"""
+    from pyvc.sorts import leaf_of, S
+    tree, fl = a
+    ks = interp.read_field(st, fl, "dict_str_ref", "keys")
+    mp = interp.read_field(st, fl, "dict_str_ref", "map")
+    k = z3.Const("k!sep", S)
+    return Val(z3.ForAll([k], z3.Implies(z3.Contains(ks.t, z3.Unit(k)), z3.Not(leaf_of(tree.t, z3.Select(mp.t, k))))), "bool")
+
+
+_SEV_HOOKS = {"urep": _h_urep, "leaves_set": _h_leaves_set, "others_kept": _h_others_kept, "separate": _h_separate}
+CONTRACTS["models.pddl_function:PDDLFunction.untyped_representation"] = dict(
+    prop="C12", assumed=True, params={"self": _FN}, returns="str", allocates=False,
+    ensures=["result == urep(self)"], raises={}, modifies=[], spec_hooks=_SEV_HOOKS)
+CONTRACTS[NE + "set_expression_value"] = dict(
+    prop="C12", params={"expression_node": "tree", "state_fluents": ("ref", "dict_str_ref")}, returns="none", allocates=False,
+    locals={"grounded_fluent": _FN}, dict_values={"dict_str_ref": "PDDLFunction"},
+    requires=["tree_refs_ok(expression_node)", "separate(expression_node, state_fluents)"],
+    ensures=["leaves_set(expression_node, state_fluents)", "others_kept(expression_node)"],
+    raises={}, modifies=["PDDLFunction.stored_value"], decreases_structural="expression_node",
+    calls={"set_expression_value": NE + "set_expression_value", "PDDLFunction.set_value": "models.pddl_function:PDDLFunction.set_value",
+           "PDDLFunction.untyped_representation": "models.pddl_function:PDDLFunction.untyped_representation"},
+    spec_hooks=dict(_HOOKS, **_SEV_HOOKS))
